@@ -265,7 +265,8 @@ mod dnssim {
             std::process::exit(101);
         }));
         let w: Vec<&str> = op.split_whitespace().collect();
-        let rt = tokio::runtime::Builder::new_multi_thread().worker_threads(2).enable_all().build().unwrap();
+        // virtual time: the timeouts below are exact and independent of machine load
+        let rt = tokio::runtime::Builder::new_current_thread().enable_all().start_paused(true).build().unwrap();
         let result: Slot = Default::default();
         let network = Network::basic();
         let ip_table: IpTable<Recipient> = [("0.0.0.0/0", Recipient::new(0, None))].into_iter().collect();
